@@ -32,6 +32,8 @@ def seeded(ctx, n):
                 c = min(left, rng.choice([1, memr, left, max(1, left // 2)]))
                 chunks.append(c)
                 left -= c
+            if rng.random() < 0.15 and mxr > 0:      # a first write that alone exceeds the maximum, then writes that fit but cross the memory threshold
+                chunks = [mxr + rng.randint(1, 3)] + [max(1, min(mxr, memr + rng.randint(1, 2)))] * rng.randint(1, 2)
             nat = rng.randint(1, 3)
             scripts = []
             for k in range(nat):
